@@ -703,6 +703,8 @@ func (m *MapPollard) placeEmptyRoot(prevRootPos uint64) error {
 				_, cached := m.CachedLeaves.Get(v.Hash)
 				if cached || m.Full {
 					v.Remember = true
+				}
+				if cached {
 					m.CachedLeaves.Put(v.Hash, pos)
 				}
 				m.Nodes.Put(pos, v)
@@ -748,8 +750,10 @@ func (m *MapPollard) undoDeletion(proof Proof, hashes []Hash) error {
 		if found {
 			_, cached := m.CachedLeaves.Get(v.Hash)
 			if cached || m.Full {
-				m.CachedLeaves.Put(v.Hash, prevPos)
 				v.Remember = true
+			}
+			if cached {
+				m.CachedLeaves.Put(v.Hash, prevPos)
 			}
 
 			m.Nodes.Delete(sib)
@@ -803,22 +807,27 @@ func (m *MapPollard) undoDeletion(proof Proof, hashes []Hash) error {
 		if m.Full {
 			remember = true
 		}
+		isTarget := false
 		for _, target := range proof.Targets {
 			if TreeRows(m.NumLeaves) != m.TotalRows {
 				translated := translatePos(target, TreeRows(m.NumLeaves), m.TotalRows)
 				if pos == translated {
-					remember = true
+					isTarget = true
 				}
 			} else {
 				if pos == target {
-					remember = true
+					isTarget = true
 				}
 			}
 		}
+		if isTarget {
+			remember = true
+		}
 		m.Nodes.Put(pos, Leaf{Hash: newhnp.hashes[i], Remember: remember})
 
-		// Only add it to the cached leaves if remember is true.
-		if remember {
+		// Only the targets are leaves. Everything else is an intermediate node
+		// and doesn't belong to the cached leaves.
+		if isTarget {
 			m.CachedLeaves.Put(newhnp.hashes[i], pos)
 		}
 	}
@@ -1168,14 +1177,21 @@ func (m *MapPollard) ingest(delHashes []Hash, proof Proof) error {
 		if m.Full {
 			remember = true
 		}
+		isTarget := false
 		for i := range hnp.positions {
 			if hnp.positions[i] == pos {
-				remember = true
+				isTarget = true
 				break
 			}
 		}
+		if isTarget {
+			remember = true
+		}
 		m.Nodes.Put(pos, Leaf{Hash: intermediate.hashes[i], Remember: remember})
-		if remember {
+
+		// Only the targets are leaves. Everything else is an intermediate node
+		// and doesn't belong to the cached leaves.
+		if isTarget {
 			m.CachedLeaves.Put(intermediate.hashes[i], pos)
 		}
 	}
